@@ -229,9 +229,11 @@ func H_C02_adjust_cross() {
 	rhAdjustCross([]int{scalarResFams[i], scalarResFams[j]}, 2)
 }
 
-// H_C02_update_cross: as H_C02_adjust_cross for updates of one target (18 resource fields that updates carry).
+// H_C02_update_cross: as H_C02_adjust_cross for updates (18 resource fields that updates carry), in every
+// kind of request that carries updates, same or different targets.
 //verif:property C02
 //verif:instances 18
+//verif:tier thorough
 //verif:expect-cover conflict-free
 func H_C02_update_cross() {
 	i := instance()
@@ -241,4 +243,20 @@ func H_C02_update_cross() {
 	}
 	k := choose(3)
 	rhUpdateRun(k, []int{scalarFams[i], scalarFams[j]}, []int{1, 1}, 0, 2)
+}
+
+// H_C02_update_crossq: every ordered pair of distinct fields, both plugins updating the same container; the
+// request kind is fixed per pair ((i+j) mod 3).
+//verif:property C02
+//verif:instances 18
+//verif:tier quick
+//verif:expect-cover conflict-free
+func H_C02_update_crossq() {
+	i := instance()
+	j := choose(17)
+	if j >= i {
+		j++
+	}
+	rhSameTarget = true
+	rhUpdateRun((i+j)%3, []int{scalarFams[i], scalarFams[j]}, []int{1, 1}, 0, 2)
 }
